@@ -31,7 +31,7 @@ REPL = os.environ.get("VERIF_REPLAY_DIR") or os.path.join(HERE, "replays")
 NCPU = int(os.environ.get("VERIF_JOBS", "16"))
 GRACE_AFTER_FAILURE = 45
 REGRESS_TIMEOUT = 600
-WARM_TIMEOUT = int(os.environ.get("VERIF_WARM_TIMEOUT", "600"))
+WARM_TIMEOUT = int(os.environ.get("VERIF_WARM_TIMEOUT", "400"))
 
 
 def tree_hash():
